@@ -45,12 +45,18 @@ def tokens(s, base=0):
 class C16(LineCheck):
     pid = "C16"
     coq_targets = ["theories/Avl/AvlModel.vo", "theories/Avl/AvlMonitor.vo", "theories/Avl/AvlProofs.vo",
-                   "theories/Avl/AvlPtrModel.vo", "theories/Avl/AvlPtrC16.vo", "theories/Avl/AvlPtrHist.vo"]
+                   "theories/Avl/AvlPtrModel.vo", "theories/Avl/AvlPtrC16.vo", "theories/Avl/AvlPtrHist.vo",
+                   "theories/Base/CSem.vo", "theories/Gen/LeafAvl.vo", "theories/Avl/AvlLink.vo"]
     corr_name = ("correspondence avl_drv(iv_avl.c) = extracted AvlModel (rc, full tree dump with heights and parent keys, next/prev "
                  "traversals after every op) and avl_drv ptr(iv_avl.c) = extracted AvlPtrModel (rc, root pointer, the "
                  "left/right/parent/height/key fields of every live node object named by allocation serial, next/prev traversals "
                  "by node identity, after every op)")
     trusted = [
+        "gen/c2gallina.py (class CTr: clang JSON AST -> Gen/LeafAvl.v, rerun on every check) and the C integer semantics Base/CSem.v "
+        "(None = null dereference / signed overflow): height(), recalc_height(), balance() and the five tests / assignments of "
+        "rebalance_node() are translated and proved equal to ht / mk / balance / the thresholds -2, 2, <= 0, < 0 of Avl/AvlModel.v for "
+        "stored heights in [0, 255] (C16_balance_arith_is_the_code); node pointers are addresses (0 = NULL), a pointer that is only "
+        "dereferenced is assumed valid; the rotations themselves (pointer surgery) are not translated",
         "pointer surgery of iv_avl.c (left/right/parent fields, height) is transcribed statement by statement over a store id -> {left,right,parent,height,key} (AvlPtrModel: NULL / dangling dereferences and exhausted loop bounds are explicit error outcomes) and PROVED to refine the functional tree model (Avl/AvlPtr*.v: RepF incl. parent-pointer consistency and no sharing; insert / delete / min / max / next / prev / for_each; C16_ptr_* theorems); what stays trusted is the transcription itself, tied to the C text by the per-operation comparison of all fields of all live node objects + root + traversals by node identity (and the functional model by the tree dump comparison)",
         "height is Z in AvlPtrModel, uint8_t in C: a tree of height 255 needs more than 2^176 nodes (C16_height_log); not modelled",
         "avl_drv.c builds start shapes by writing node fields directly and locates delete victims by its own BST search; in ptr mode it names node objects by allocation serial through its own registry of live objects (a pointer to anything else prints as `?`); avl_ptr_drv.ml.in builds the same start store directly (pre-order ids, exact heights, parent ids)",
@@ -65,6 +71,22 @@ class C16(LineCheck):
             "successful operation acts on a tree of >= 3 nodes (rebalancing walks a path of length >= 2); distinct = distinct case text; "
             "every case runs through both stages: tree dump vs AvlModel + monitor, and pointer-level dump (all fields of all live node "
             "objects by allocation serial, root, traversals by node identity) vs AvlPtrModel, after every operation")
+
+    # way (a) of the tie for the height / balance arithmetic: re-translated from the current source on every run
+    # (gen/c2gallina.py -> Gen/LeafAvl.v); Avl/AvlLink.v proves the translations equal to ht / mk / balance / rebalance_node's tests
+    def pre_proof(self, ctx):
+        import leafgen
+        return leafgen.regenerate(["LeafAvl.v"])
+
+    def proofs(self, ctx):
+        import leafgen
+        return leafgen.explain(
+            LineCheck.proofs(self, ctx), "AvlLink", "C16_balance_arith_is_the_code (Avl/AvlLink.v: leaf_height / leaf_recalc_height / "
+            "leaf_balance / leaf_left_heavy / leaf_right_heavy / leaf_left_single / leaf_right_double / rebalance_node_is_the_code)",
+            "height(), recalc_height() (`1 + ((hl > hr) ? hl : hr)` stored into the uint8_t field), balance() (`height(an->right) - "
+            "height(an->left)`) or a test of rebalance_node() (`bal == -2`, `balance(root->left) <= 0`, `bal == 2`, "
+            "`balance(root->right) < 0`) in the current src/iv_avl.c, as translated by gen/c2gallina.py into Gen/LeafAvl.v, is not the "
+            "model's ht / mk / balance / rebalance_node any more")
 
     def build(self, ctx):
         d = os.path.join(ctx.work, "b")
